@@ -84,7 +84,6 @@ class Fragment(AbstractApplication):
         # take the payload data to fragment it
         pyld_blk = ctr.block_num(Bundle.BLOCK_NUM_PAYLOAD)
         payload_data = pyld_blk.getfieldval('btsd')
-        pyld_blk.delfieldval('btsd')
         payload_size = len(payload_data)
         LOGGER.info('Payload data size %d', payload_size)
         # maximum size of each fragment field
@@ -94,6 +93,9 @@ class Fragment(AbstractApplication):
         non_pyld_size = orig_size - payload_size + 3 * pyld_size_enc
         LOGGER.info('Non-payload size %d', non_pyld_size)
         if non_pyld_size > mtu:
+            # nothing can be sent for this bundle
+            ctr.route = None
+            ctr.sender = None
             raise RuntimeError('Non-payload size {} too large for route MTU {}'.format(orig_size, mtu))
 
         frag_offset = 0
@@ -111,12 +113,18 @@ class Fragment(AbstractApplication):
                     fctr.bundle.blocks.append(blk.copy())
             # ensure full size (with zero-size payload)
             fctr.reload()
+            fpyld_blk = fctr.block_num(Bundle.BLOCK_NUM_PAYLOAD)
+            fpyld_blk.remove_payload()
+            fpyld_blk.setfieldval('btsd', b'')
             fctr.bundle.fill_fields()
 
             non_pyld_size = len(fctr.bundle)
             # zero-length payload has one-octet encoded bstr head
             frag_size = mtu - (non_pyld_size - 1 + pyld_size_enc)
             if frag_size <= 0:
+                # nothing can be sent for this bundle
+                ctr.route = None
+                ctr.sender = None
                 raise RuntimeError('Payload size {} too large for route MTU {}'.format(frag_size, mtu))
 
             LOGGER.info('Fragment non-payload size %d, offset %d, (max) size %d', non_pyld_size, frag_offset, frag_size)
